@@ -102,7 +102,7 @@ func RangesFromExpression(str string) (ranges Ranges, err error) {
 			if err != nil {
 				return
 			}
-			end, err = strconv.ParseUint(rangeSplit[0], 10, 64)
+			end, err = strconv.ParseUint(rangeSplit[1], 10, 64)
 			if err != nil {
 				return
 			}
